@@ -246,6 +246,7 @@ pub struct RunCtx {
     pub active_at_close: std::cell::Cell<Option<usize>>,
     pub order_anomaly_reported: std::cell::Cell<bool>,
     pub aborted: std::cell::Cell<bool>,
+    pub partial_reported: std::cell::Cell<bool>,
     pub crashed: std::cell::Cell<bool>,
     /// deletion markers appended to blobs that were closed at that moment: (blob, offset)
     pub closed_writes: RefCell<BTreeSet<(usize, u64)>>,
@@ -411,6 +412,7 @@ where
         active_at_close: std::cell::Cell::new(None),
         order_anomaly_reported: std::cell::Cell::new(false),
         aborted: std::cell::Cell::new(false),
+        partial_reported: std::cell::Cell::new(false),
         crashed: std::cell::Cell::new(false),
         closed_writes: RefCell::new(BTreeSet::new()),
         sweep_hit: RefCell::new(None),
